@@ -1236,6 +1236,9 @@ class C13(Prop):
             m = r.choice([1, 2, 5, 7, 255, 256, 257, 1000, (1 << bits) - 1, 1 << bits, (1 << bits) + 1, 1 << (bits + 3), -1, -5, -(1 << bits), 0,
                           r.randint(1, 1 << (bits + 1))])
             out.append(show(['upow3', w, a, e, m]))
+        for _ in range(self.n(tier) // 10):
+            w = r.choice(W)
+            out.append(show(['uun', r.choice(['neg', 'neg', 'pos', 'abs']), w, r.choice([0, 0, 1, self.operand_val(g, w)])]))
         for _ in range(self.n(tier) // 6):
             wx, wy = r.choice(W), r.choice(W)
             x = self.operand_val(g, wx)
@@ -1264,7 +1267,7 @@ class C13(Prop):
         return True
 
     def compare(self, case, py, mo, stats):
-        bump(stats, 'ops', case[1] if case[0] in ('uop', 'urefl') else case[0])
+        bump(stats, 'ops', case[1] if case[0] in ('uop', 'urefl', 'uun') else case[0])
         bump(stats, 'errs', 'err' if mo.get('r') == 'err' else 'ok')
         if py.get('p.r') == 'badoperand':
             bump(stats, 'errs', 'skipped:operand-not-constructible')
